@@ -145,3 +145,33 @@ def model_check(ctx, scen):
     bad = [(pick[i], got[i], exp[i]) for i in range(min(len(got), len(exp))) if got[i] != exp[i]]
     ctx.ob('correspondence', f'Dem.v (toy instance, vm_compute inside Coq) predicts the outcome class of {len(pick)} PKE / header scenarios (round trips, unauthorized, truncations, altered bytes, authentication-data combinations)',
            r.returncode == 0 and len(got) == len(exp) and not bad, (str(bad[:2]) if bad else '') + r.stderr[-300:])
+
+
+def header_roundtrips(ctx):
+    """C13: an EncryptedHeader (metadata absent / EMPTY / short / long, with and without authentication data) serialized and
+    deserialized is the same header (same encapsulation bytes, same encrypted metadata), re-serializes to the same bytes
+    and opens - through its serialized form - to the same secret and metadata."""
+    d = Demd(); bad = []; n = 0
+    for md in (None, b'', b'm', bytes(range(15)), bytes(range(16)), bytes(range(17)), bytes(300)):
+        for ad in (None, b'ad'):
+            r = d.ask(f'HDR {opt(md)} {opt(ad)}').split(' ')
+            enc, emd, sec = r[1], r[2], r[3]
+            s1 = d.ask(f'HDRSER {enc} {emd}').split(' ')
+            back = d.ask(f'HDRDE {s1[0]}').split(' ')
+            n += 1
+            if s1[1] != '1': bad.append((md, ad, 'length() != serialize().len()'))
+            if back[0] != enc or back[1] != emd: bad.append((md, ad, f'deserializes to other content: metadata {back[1][:40]} instead of {emd[:40]}'))
+            else:
+                s2 = d.ask(f'HDRSER {back[0]} {back[1]}').split(' ')[0]
+                if s2 != s1[0]: bad.append((md, ad, 're-serialization differs'))
+            o = d.ask(f'HDRDECS 1 {s1[0]} {opt(ad)}')
+            exp = f'OK:{sec}:{opt(md)}'
+            if o != exp: bad.append((md, ad, f'serialized header opens to {o[:60]} instead of {exp[:60]}'))
+            if md is not None:
+                o2 = d.ask(f'HDRDECS 1 {s1[0]} {opt(b"other")}')
+                if o2 != 'ERR': bad.append((md, ad, f'serialized header opens with other authentication data: {o2[:40]}'))
+    ctx.evaluations += d.n; d.close()
+    ctx.ob('correspondence', f'EncryptedHeader round trips: {n} headers (metadata absent / empty / 1 / 15 / 16 / 17 / 300 bytes x authentication data absent / present): same content, same bytes, same opening through the serialized form', not bad, str(bad[:2])[:500])
+    if bad:
+        md, ad, what = bad[0]
+        vf.violation(ctx, f'encrypted header with metadata {opt(md)[:20]} / authentication data {opt(ad)}: {what}', {'metadata': opt(md), 'ad': opt(ad), 'what': what, 'violations_total': len(bad)})
